@@ -29,7 +29,7 @@ CLAIMED = {
          "Function set is the catalogue's (0..3 fixed parameters, variadic, namespaced, parameterless, two signatures sharing one parameter table); parameter names are compared; CRLF and comments between arguments; complete calls nested in half-typed ones.",
          "DESIGN.md §6 C20"),
  "C03": ("model_checking", "deviation-bounded choice-point DFS over map-iteration orders on the instrumented real code (E3) + query-history pairs + fresh-decoder differential",
-         "Every range-over-map in the library is rewritten (at check time, by overlay) into a choice point; for every world and query all choice vectors within the deviation bound are executed and the canonical result must equal the canonical-order result; histories: every query repeated after all others, all ordered pairs of representative queries vs a fresh decoder; decoder rebuilt with reversed insertion order.",
+         "Every range-over-map in the library is rewritten (at check time, by overlay) into a choice point; for every world and query all choice vectors within the deviation bound are executed and the canonical result must equal the canonical-order result; histories: every query repeated after all others, all ordered pairs of representative queries vs a fresh decoder; whole sequences (both orders, prefill off and on) on ONE kept PathDecoder vs a fresh one per query; decoder rebuilt with reversed insertion order.",
          "Map iteration inside hcl/cty/stdlib is not behind the seam; permutation alphabet for n>4 keys is a stated subset.",
          "DESIGN.md §6 C03"),
  "C04": ("model_checking", "explicit-state search over query histories (E4) with a deep state hash, plus a statement-level write barrier in the instrumented build",
@@ -45,7 +45,7 @@ CLAIMED = {
          "The hclsyntax tree is the oracle for what is written; the PathReader is ours and injects the faults.",
          "DESIGN.md §6 C14"),
  "C17": ("exploration", "reflective bounded-exhaustive enumeration of schema values by field-population pattern (E6)",
-         "Every Copy() receiver type x zero / one-hot per field per menu value / all-populated, nested to depth 2 (quick) or 3 (thorough): no panic, canonical deep equality incl. unexported fields, no shared mutable container, mutation probes both ways; a field the generator cannot populate is reported.",
+         "Every Copy() receiver type x zero / one-hot per field per menu value / all-populated, nested to depth 2 (quick) or 3 (thorough): no panic, canonical deep equality incl. unexported fields, no shared mutable container, mutation probes both ways; a field the generator cannot populate is reported; containers of 63-67 and 130 entries (block dependent bodies, body attributes and blocks, object attributes, parameters, nested targetables).",
          "Field menus are generated by kind; interface-typed fields use a registry (Constraint, Default, AddrStep).",
          "DESIGN.md §6 C17"),
  "C07": ("exploration", "bounded-exhaustive enumeration of cursors and typed prefixes in every body, compared with a reference model of the effective schema (E2 model compare)",
